@@ -518,6 +518,32 @@ theorem parse_eq (t : IntTy) (ws : Bool) (s : List Nat) (b : Nat) :
 
 /-! ### parsing the rendered text -/
 
+/-- `to_integer` with an explicit base, every input (the statement of `Props.toInteger_eq`) -/
+theorem toInteger_spec (t : IntTy) (h8 : 8 ≤ t.bits) (ws : Bool) (s : List Nat) (hbytes : ∀ c ∈ s, c < 256)
+    (b : Nat) (hb : 2 ≤ b ∧ b ≤ 36) :
+    toInteger t ws s b = .ok (TIRes.ofSpec (Spec.parse t ws s b)) := by
+  unfold toInteger
+  have hbase : (((b : Int) != 0) && (decide ((b : Int) < 2) || decide ((b : Int) > 36))) = false := by
+    have : (decide ((b : Int) < 2) || decide ((b : Int) > 36)) = false := by
+      simp only [Bool.or_eq_false_iff, decide_eq_false_iff_not]; omega
+    rw [this, Bool.and_false]
+  simp only [hbase, Bool.false_eq_true, if_false]
+  rw [parse_eq]
+  cases ws with
+  | false =>
+    simp only [Bool.false_eq_true, if_false, ok_bind]
+    exact toIntegerAt_spec t h8 b hb [] s hbytes
+  | true =>
+    simp only [if_true]
+    have hsk := skipWs_spec s [] hbytes
+    simp only [List.nil_append, List.length_nil, Nat.zero_add] at hsk
+    rw [hsk]
+    simp only [ok_bind]
+    have h := toIntegerAt_spec t h8 b hb (s.takeWhile Spec.isSpace) (s.dropWhile Spec.isSpace)
+      (fun c hc => hbytes c ((List.dropWhile_sublist _).subset hc))
+    rw [List.takeWhile_append_dropWhile] at h
+    exact h
+
 theorem takeWhile_all {α} (p : α → Bool) : ∀ (l : List α), (∀ x ∈ l, p x = true) → l.takeWhile p = l := by
   intro l
   induction l with
